@@ -187,9 +187,11 @@ class Model(object):
             return [Alt([], False, 1, ap, 'manual start')]
         return [self._ignore('start ignored outside Idle')]
 
-    def open_problem(self, ver, asn, hold, malformed=False):
+    def open_problem(self, ver, asn, hold, malformed=False, unsup_opt=False):
         if ver != 4:
             return (2, 1)
+        if unsup_opt:
+            return (2, 4)       # an optional parameter that is not recognized (RFC 4271 6.2)
         if malformed:
             return (2, 0)       # recognized optional parameter, malformed (RFC 4271 6.2)
         if asn != self.remote_as:
@@ -211,7 +213,7 @@ class Model(object):
         if kind == 'RR':
             return [self._ignore('route-refresh ignored by the state machine')]
         if kind == 'OPEN':
-            bad = self.open_problem(meta['ver'], meta['asn'], meta['hold'], meta.get('malformed', False))
+            bad = self.open_problem(meta['ver'], meta['asn'], meta['hold'], meta.get('malformed', False), meta.get('unsup_opt', False))
             if s == OPENSENT:
                 if bad:
                     return [self._err(bad[0], bad[1])]
